@@ -167,9 +167,9 @@ def cfg_of(scn):
             elif cl == "smaller":
                 rlen = max(total - 1, 0)
             body = h_channel.request_bytes(r)[1]
-            blen = r.get("blen", 3) if kind in ("body", "chunked", "expect", "expect10", "te_cl", "te_cl_empty") else 0
+            blen = r.get("blen", 3) if kind in ("body", "chunked", "expect", "expect10", "te_cl", "te_cl_empty", "expect_chunked") else 0
             mustclose = bool(kind in CLOSING_KINDS or cl == "larger" or spec.get("raise") or spec.get("raise_at") is not None)
-            reqs.append({"v11": kind not in ("http10", "http10_ka", "expect10", "te10"), "expect": kind in ("expect", "expect_nobody", "expect10"),
+            reqs.append({"v11": kind not in ("http10", "http10_ka", "expect10", "te10"), "expect": kind in ("expect", "expect_nobody", "expect10", "expect_chunked"),
                          "refuse": kind in REFUSED_KINDS, "rlen": rlen, "blen": blen, "mark": chr(64 + r["k"]), "mustclose": mustclose})
             if kind == "partial":
                 closed = True
